@@ -186,13 +186,35 @@ theorem C17_execute_safe (S : Segmenter) (U : UData) (cfg : EdCfg) (hv : ∀ t, 
     exact safe_editKill S U cfg mvt hnp h
   case replace mvt text =>
     unfold execute; simp only [wp_bind, wp_pure]
+    -- closing the undo group (when no insert session follows) touches the undo log only
+    have tail : ∀ s2, EdWF cfg s2 →
+        wp (do
+          let inserting ← (fun s => .ok (cfg.vi && s.inp.inputMode != .command, s) : EM Bool)
+          if !inserting then do let _ ← changesEnd; pure ()
+          pure Status.proceed) (fun _ s' => EdWF cfg s') (fun o _ => o ≠ .panic) s2 := by
+      intro s2 h2
+      rw [wp_bind']
+      have key : ∀ a : Bool, wp
+          (have __do_jp := fun (_ : Unit) => (pure Status.proceed : EM Status);
+           if (!a) = true then do
+             let _ ← changesEnd
+             __do_jp ()
+           else __do_jp ())
+          (fun _ s' => EdWF cfg s') (fun o _ => o ≠ Outcome.panic) s2 := by
+        intro a
+        cases a with
+        | true => exact h2
+        | false =>
+          simp only [Bool.not_false, if_true, wp_bind, wp_changesEnd, wp_pure]
+          exact EdWF.mk' h2.line h2.saved h2.idx h2.ring
+      exact key (cfg.vi && s2.inp.inputMode != .command)
     refine wp_mono (safe_editKill S U cfg mvt hnp h) ?_ (fun _ _ h => h)
     intro _ s1 h1
     cases text with
-    | none => exact h1
+    | none => exact tail s1 h1
     | some t =>
-      simp only [wp_bind, wp_pure]
-      exact safe_editInsertText S U cfg t hnp h1
+      simp only [wp_bind]
+      exact wp_mono (safe_editInsertText S U cfg t hnp h1) (fun _ s2 h2 => tail s2 h2) (fun _ _ h => h)
   case yank n a =>
     unfold execute; simp only [wp_bind, wp_pure]
     refine wp_ringYank_safe cfg h fun t s1 h1 => ?_
